@@ -69,13 +69,14 @@ def decide(T, term, box=(), subst=None):
     return Obl(False, text + (" [%s]" % "; ".join(where) if where else ""), "blame=%s:excess=%s" % ("+".join(bl) if bl else "multiple", excess), evals)
 
 
-def run_obligation(inst, key, fn, T, term, desc, box=(), subst=None):
+def run_obligation(inst, key, fn, T, term, desc, box=(), subst=None, role=None):
+    """`role`: rename-stable label used in the violation key instead of the function's Rust path."""
     o = decide(T, term, box, subst)
     inst.evaluations += o.evaluations
     if o.ok:
         inst.site("%s: %s" % (desc, o.text))
     else:
-        inst.fail("%s:%s:%s" % (key, fn.path, o.key_suffix), fn.path, fn.span, "%s — %s" % (desc, o.text))
+        inst.fail("%s:%s:%s" % (key, role or fn.path, o.key_suffix), fn.path, fn.span, "%s — %s" % (desc, o.text))
     return o.ok
 
 
